@@ -81,7 +81,7 @@ Proof.
   unfold step_ok, Inv, held. intros HI Hc Hlc. unfold vec_grow.
   destruct (add <=? vcap v - vlen v) eqn:E0; [cbn; repeat split; auto; intros; try lia; congruence|].
   destruct (USIZE_MAX <? vlen v + add); [cbn; repeat split; auto; intros; try lia; discriminate|].
-  set (required := vlen v + add). set (amort := N.max required (N.max (2 * vcap v) 4)).
+  set (required := vlen v + add). set (amort := N.max required (N.max (VEC_GROWTH_FACTOR * vcap v) VEC_MIN_CAP)).
   assert (Hfin : forall nc, vcap v <= nc -> required <= nc -> ensure m ((nc - vcap v) * velem v) = true ->
     let '(r, m', v', t) :=
       (if host_ok cap (nc * velem v)
@@ -429,4 +429,63 @@ Proof.
   intro HI. unfold concat_gc. induction n using N.peano_ind.
   - cbn. split; [exact HI | cbn; lia].
   - rewrite N.iter_succ. apply concat_step_ok. exact IHn.
+Qed.
+
+
+(* ---- exact answers, and no panic / abort *)
+Lemma array_exact cap e m n : maxb m < U64 -> Inv m -> maxb m <= cap ->
+  let '(r, m', t) := op_array cap e m n in
+  (r = ROk <-> (0 <= n)%Z /\ held m + SZ_ARRAY + Z.to_N n * e <= maxb m) /\
+  (r = ROk -> held m' = held m + SZ_ARRAY + Z.to_N n * e) /\ r <> RAbort /\ r <> RPanic.
+Proof.
+  intros Hx HI Hcap. unfold Inv, held in *. unfold op_array.
+  destruct (n <? 0)%Z eqn:En; [repeat split; intros; try discriminate; try lia; destruct H; lia|].
+  destruct (U64 <=? SZ_ARRAY + Z.to_N n * e) eqn:Eu; [repeat split; intros; try discriminate; try lia; destruct H; lia|].
+  destruct (ensure m (SZ_ARRAY + Z.to_N n * e)) eqn:E.
+  - apply ensure_sound in E. unfold host_ok. destruct (Z.to_N n * e <=? cap) eqn:Eh; [|lia].
+    cbn [add_heap heap manual maxb]. repeat split; intros; try discriminate; lia.
+  - repeat split; intros; try discriminate; try lia.
+    destruct H as [H1 H2]. rewrite ensure_complete in E; [discriminate | assumption | lia].
+Qed.
+
+Lemma string_checked_exact cap m total : maxb m <= ISIZE_MAX -> Inv m -> maxb m <= cap ->
+  let '(r, m', t) := op_string_checked cap m total in
+  (r = ROk <-> held m + SZ_STRING + total <= maxb m) /\
+  (r = ROk -> held m' = held m + SZ_STRING + total) /\ r <> RAbort /\ r <> RPanic.
+Proof.
+  intros Hx HI Hcap. assert (Hu : maxb m < U64) by (unfold U64, ISIZE_MAX in *; lia).
+  unfold Inv, held in *. unfold op_string_checked.
+  destruct (ISIZE_MAX <? total) eqn:Ei.
+  - repeat split; intros; try discriminate; exfalso; lia.
+  - destruct (ensure m (SZ_STRING + total)) eqn:E.
+    + apply ensure_sound in E. unfold host_ok. destruct (total <=? cap) eqn:Eh; [|lia].
+      cbn [add_heap heap manual maxb]. repeat split; intros; try discriminate; lia.
+    + repeat split; intros; try discriminate; try lia.
+      rewrite ensure_complete in E; [discriminate | assumption | lia].
+Qed.
+
+(* no primitive of the model answers with a panic; with a host that can grant three times the limit (the transient of
+   pad_left) and MAX_ALLOC, none aborts *)
+Lemma gstep_never_panics cap m o : fst (fst (gstep cap m o)) <> RPanic.
+Proof.
+  destruct o as [len | size | n | b | sz | e n | v | v a | sl n | sc sb pb w | n | total]; cbn [gstep].
+  - unfold op_string. destruct (ensure m (SZ_STRING + len)); discriminate.
+  - unfold op_object. destruct (ensure m size); discriminate.
+  - unfold op_manual. destruct (n <? 0)%Z; [discriminate|]. destruct (checked_mul (Z.to_N n) SZ_VALUE); [|discriminate].
+    destruct (ensure m n0); [|discriminate]. destruct (n =? 0)%Z; discriminate.
+  - discriminate.
+  - discriminate.
+  - unfold op_array. destruct (n <? 0)%Z; [discriminate|]. destruct (U64 <=? SZ_ARRAY + Z.to_N n * e); [discriminate|].
+    destruct (ensure m (SZ_ARRAY + Z.to_N n * e)); [|discriminate]. destruct (host_ok cap (Z.to_N n * e)); discriminate.
+  - assert (G : forall add, fst (fst (fst (vec_grow cap m v add))) <> RPanic).
+    { intro add. unfold vec_grow. repeat match goal with |- context [if ?c then _ else _] => destruct c end; discriminate. }
+    unfold op_vec_push. specialize (G 1). destruct (vec_grow cap m v 1) as [[[r m'] v'] t]. cbn [fst] in *. destruct r; cbn [fst]; congruence.
+  - unfold op_vec_reserve. destruct (a <? 0)%Z; [discriminate|].
+    assert (G : fst (fst (fst (vec_grow cap m v (Z.to_N a)))) <> RPanic).
+    { unfold vec_grow. repeat match goal with |- context [if ?c then _ else _] => destruct c end; discriminate. }
+    destruct (vec_grow cap m v (Z.to_N a)) as [[[r m'] v'] t]. exact G.
+  - unfold op_repeat, op_string. repeat match goal with |- context [if ?c then _ else _] => destruct c end; discriminate.
+  - unfold op_pad. repeat match goal with |- context [if ?c then _ else _] => destruct c end; discriminate.
+  - unfold op_bytes. repeat match goal with |- context [if ?c then _ else _] => destruct c end; discriminate.
+  - unfold op_string_checked. repeat match goal with |- context [if ?c then _ else _] => destruct c end; discriminate.
 Qed.
